@@ -39,7 +39,18 @@ where
 
   fn actual_subscribe(self, observer: O) -> Self::Unsub {
     let Self { scheduler, dur, delay } = self;
-    scheduler.schedule(RepeatTask::new(dur, interval_task, observer), delay)
+    let task = match delay {
+      // `interval_at`: the first tick is due at the given instant, i.e. as
+      // soon as the initial delay has elapsed, not one period after that
+      Some(_) => RepeatTask::with_first_tick(
+        Duration::default(),
+        dur,
+        interval_task,
+        observer,
+      ),
+      None => RepeatTask::new(dur, interval_task, observer),
+    };
+    scheduler.schedule(task, delay)
   }
 }
 
